@@ -22,6 +22,18 @@ func main() {
 		"C18":       run,
 		"c18worker": func([]string) { subproc.Serve(c18.Handle) },
 		"c18race":   racePass,
+		"c18points": func(a []string) { // debugging aid: print the scheduling points of one execution
+			var c c18.Case
+			json.Unmarshal([]byte(a[0]), &c)
+			r, err := c18.RunOne(c.Scenario, c.Prefix, true, true)
+			fmt.Println("err:", err, "outcome:", r.Outcome)
+			for i, p := range r.Verdict.Points {
+				fmt.Printf("%3d enabled=%v chosen=%d %s %s\n", i, p.Enabled, p.Chosen, p.Op, p.Site)
+			}
+			for _, pr := range r.Problems {
+				fmt.Println("problem:", pr.Oracle, pr.Sig, pr.Detail)
+			}
+		},
 	}, nil)
 }
 
@@ -42,6 +54,8 @@ func scenarios(tier string) []c18.Scenario {
 		{Name: "new || query-open", Threads: [][]c18.Call{T(c18.CNew), T(c18.CQueryOpen)}},
 		{Name: "cold: comment-shared || comment-shared", Cold: true, Threads: [][]c18.Call{T(c18.CCommentShared), T(c18.CCommentShared)}},
 		{Name: "cold: comment-shared || snapshot+excerpt", Cold: true, Threads: [][]c18.Call{T(c18.CCommentShared), T(c18.CSnapshot, c18.CExcerpt)}},
+		{Name: "io: new || new", IO: true, Threads: [][]c18.Call{T(c18.CNew), T(c18.CNew)}},
+		{Name: "io: comment-shared || comment-own", IO: true, Threads: [][]c18.Call{T(c18.CCommentShared), T(c18.CCommentOwn)}},
 		{Name: "size1: comment-shared || comment-other", Size: 1, Threads: [][]c18.Call{T(c18.CCommentShared), T(c18.CCommentOther)}},
 		{Name: "size1: comment-own || comment-own", Size: 1, Threads: [][]c18.Call{T(c18.CCommentOwn), T(c18.CCommentOwn)}},
 		{Name: "size1: comment-shared || new", Size: 1, Threads: [][]c18.Call{T(c18.CCommentShared), T(c18.CNew)}},
